@@ -184,6 +184,12 @@ Dev_InvalidIncludeAfterInvalidKept(e) ==
           \* every chain kept wrongly stands behind one that was taken out: at most half of them stay
           /\ 2 * (Len(e.out.include) - Len(good)) <= Cardinality(invalid)
           /\ IncludeOK(e.req, [e.out EXCEPT !.include = good])
+\* (fixed) String() wrote page[number] and page[size] only: any other page argument the parser had
+\* accepted and kept (a cursor) was missing from the text, so parsing it did not recover the page
+\* parameters.  Identified as: only the page parameters differ, and the request has such an argument.
+Dev_StringDropsOtherPageArguments(e) ==
+    /\ e.ev = "chain" /\ e.ret = "ok" /\ ~ChainOK(e.r) /\ e.req.page = "other"
+    /\ e.r.s1parses /\ e.r.frags /\ e.r.restype /\ e.r.resid /\ e.r.rel /\ e.r.fields /\ e.r.sort /\ e.r.filter /\ ~e.r.page
 \* URL.String cuts a separator that is not there when a type has no selected field and
 \* writes "fields%5Btype%": the text does not parse back to the same selection.  Pinned
 \* by the golden files of TestMarshalDocument (self links "...?fields%5Bmocktype%").
